@@ -17,7 +17,7 @@ LOOPS = ("while", "for", "forin", "dowhile")
 
 def size(sk):
     k = sk[0]
-    if k in ("s", "break", "continue", "return", "def", "class"):
+    if k in ("s", "d", "break", "continue", "return", "def", "class"):
         return 1
     if k == "if":
         return 1 + sum(size(x) for x in sk[1]) + sum(size(x) for x in (sk[2] or []))
@@ -51,7 +51,10 @@ def stmts(n, depth, in_loop, kinds):
     """All single statements of size exactly n."""
     out = []
     if n == 1:
-        out.append(("s",))
+        if "s" in kinds:
+            out.append(("s",))
+        for dk in sorted(k for k in kinds if k.startswith("d:")):
+            out.append(("d", dk[2:]))
         if "return" in kinds:
             out.append(("return",))
         if in_loop and "break" in kinds:
@@ -157,9 +160,18 @@ def features(body):
 
 
 # ------------------------------------------------------------------------------------------ renderers
+DATA = {  # data statements over two variables
+    "ax": "x = %d", "ay": "y = %d", "yx": "y = x", "xy": "x = y", "ux": "s(x)", "uy": "s(y)", "inc": "x = x + %d", "cx": "c = x",
+}
+
+
 class Py:
     name = "python"
     ext = ".py"
+
+    def data(self, kind):
+        t = DATA[kind]
+        return t % self.uid() if "%d" in t else t
     kinds = {"s", "if", "while", "whileelse", "forin", "break", "continue", "return", "try", "switch", "def", "class"}
     fallthrough = False
     switch_break = False
@@ -167,6 +179,8 @@ class Py:
     def method(self, name, body):
         self.n = 0
         lines = ["def %s(c, xs):" % name]
+        if getattr(self, "data_mode", False):
+            lines += ["    x = 0", "    y = 0"]
         self.block(body, 1, lines)
         return "\n".join(lines) + "\n"
 
@@ -182,8 +196,10 @@ class Py:
             k = st[0]
             if k == "s":
                 lines.append(pad + "s(%d)" % self.uid())
+            elif k == "d":
+                lines.append(pad + self.data(st[1]))
             elif k == "return":
-                lines.append(pad + "return c")
+                lines.append(pad + ("return x" if getattr(self, "data_mode", False) else "return c"))
             elif k == "break":
                 lines.append(pad + "break")
             elif k == "continue":
@@ -195,13 +211,13 @@ class Py:
                 lines.append(pad + "class Inner%d:" % self.uid())
                 lines.append(pad + "    z = 1")
             elif k == "if":
-                lines.append(pad + "if c > %d:" % self.uid())
+                lines.append(pad + "if %s > %d:" % ("y" if getattr(self, "data_mode", False) else "c", self.uid()))
                 self.block(st[1], ind + 1, lines)
                 if st[2] is not None:
                     lines.append(pad + "else:")
                     self.block(st[2], ind + 1, lines)
             elif k == "while":
-                lines.append(pad + "while c < %d:" % self.uid())
+                lines.append(pad + "while %s < %d:" % ("x" if getattr(self, "data_mode", False) else "c", self.uid()))
                 self.block(st[1], ind + 1, lines)
             elif k == "forin":
                 lines.append(pad + "for e%d in xs:" % self.uid())
